@@ -3,7 +3,7 @@
    and an honest client / server pair that completes the handshake in the model with it, both sides releasing the
    same traffic secrets. *)
 From AQ Require Import lib.Base gen.TlsDispatch model.TlsSymbolic proofs.TlsDispatchLegal.
-From AQ Require Import proofs.TlsSymbolicP1 proofs.TlsSymbolicP2 proofs.TlsSymbolicP4.
+From AQ Require Import proofs.TlsSymbolicP1 proofs.TlsSymbolicP2 proofs.TlsSymbolicP4 proofs.TlsSymbolicP5.
 
 Definition ideal_crypto (O : oracles) : Prop :=
   (forall a x y, o_hash O a x = o_hash O a y -> x = y) /\
@@ -47,6 +47,32 @@ Lemma transcript_agreement_run_x : forall O, ideal_crypto O ->
           [(DIR_DECRYPT, EP_ONE_RTT, a, ks_derive O (ks_extract O (ks_update kF finm) None) L_s_ap_traffic);
            (DIR_ENCRYPT, EP_ONE_RTT, b, ks_derive O (ks_extract O (ks_update kF finm) None) L_c_ap_traffic)].
 Proof. intros O (A & B & C & D). apply transcript_agreement_run_lemma; assumption. Qed.
+
+(* codec premises (what C17 proves about the Gallina codecs): round trips, framed outputs, message types *)
+Definition codec_ok (O : oracles) : Prop :=
+  (forall v, o_parse_sh O (o_build_sh O v) = POk v) /\ (forall v, o_parse_ee O (o_build_ee O v) = POk v) /\
+  (forall v, framed (o_build_sh O v)) /\ (forall v, framed (o_build_ee O v)) /\
+  (forall x, msg_type (o_build_fin O x) = 20) /\ (forall v, msg_type (o_build_ee O v) <> 20) /\
+  (forall v, msg_type (o_build_cr O v) <> 20) /\ (forall v, msg_type (o_build_ct O v) <> 20) /\
+  (forall v, msg_type (o_build_cv O v) <> 20).
+
+Lemma parameters_agreement_x : forall O, ideal_crypto O -> codec_ok O ->
+  forall sc ss chm ss' outS,
+  t_resumed ss = false -> framed chm ->
+  server_handle_hello O sc ss chm = (OOk, ss', outS) ->
+  exists finm, In (EP_HANDSHAKE, finm) outS /\
+    forall cc ms cs' outC,
+      let cs := run O cc (client_started O cc) ms in
+      t_state cs = CLIENT_EXPECT_FINISHED ->
+      framed (client_hello_tr O cc (t_resumed cs)) ->
+      client_handle_finished O cc cs finm = (OOk, cs', outC) ->
+      chm = client_hello_tr O cc (t_resumed cs) /\
+      k_suite (the_ks cs) = k_suite (the_ks ss') /\ t_resumed cs = t_resumed ss' /\
+      t_alpn cs = t_alpn ss' /\ t_early cs = t_early ss'.
+Proof.
+  intros O (A & B & C & D) (E1 & E2 & E3 & E4 & E5 & E6 & E7 & E8 & E9).
+  apply parameters_agreement_lemma; assumption.
+Qed.
 
 Lemma tamper_detected_x : forall O, ideal_crypto O ->
   forall c pre m m' post post', framed m -> framed m' -> m <> m' ->
